@@ -460,3 +460,95 @@ async def context_exit_releases_the_connection():
     ensures("every-task-of-the-manager-is-cancelled", tasks_cancelled(""))
     known_finding("C10:context-exit-does-not-disconnect", True)
     ensures("connected-spa-is-disconnected-on-context-exit", spa.disconnected == 1)
+
+
+# -------------------------------------------- the automatic recovery reset cancels itself
+class SuspendingMan(GeckoAsyncSpaMan):
+    async def handle_event(self, event, **kwargs):
+        suspension_point("client event handler")
+
+
+class FacadeStub:
+    def __init__(self):
+        self.disconnected = 0
+
+    async def disconnect(self):
+        self.disconnected = self.disconnected + 1
+
+
+def deliver_pending_self_cancellation(what):
+    """the reset runs ON a task of the connection (the ping loop): once cancel_key_tasks('SPA') has cancelled that
+    task, CancelledError is delivered at its next suspension point"""
+    if Net.cancelled:
+        return
+    for t in Net.tasks:
+        if t.name.startswith("SPA:") and t.cancelled:
+            Net.cancelled = True
+            cancel_here()
+
+
+@harness(prop="C10", target="geckolib.async_spa:GeckoAsyncSpa.disconnect", name="recovery_reset_survives_its_own_cancellation")
+async def recovery_reset_survives_its_own_cancellation(state: int):
+    """ping loop -> RUNNING_PING_RECEIVED in an error state -> async_reset -> spa.disconnect: the connection must be
+    released completely although the running task is among the ones being cancelled"""
+    from geckolib.spa_state import GeckoSpaState
+    from geckolib.driver.async_udp_protocol import GeckoAsyncUdpProtocol
+    requires(both(0 <= state, state <= 2))
+    st = [GeckoSpaState.ERROR_PING_MISSED, GeckoSpaState.ERROR_RF_FAULT, GeckoSpaState.ERROR_NEEDS_ATTENTION][concrete_cases(state, 0, 2)]
+    arm(-1)
+    set_suspend_hook(deliver_pending_self_cancellation)
+    m = new(SuspendingMan)
+    m._tasks = []
+    m._spa_state = st
+    m._spa_descriptors = []
+    m._spa_identifier = None
+    m._spa_name = None
+    m._status_sensor = None
+    m._facade = FacadeStub()
+    spa = GeckoAsyncSpa(b"IOSx", Descr(), m, m._handle_event)
+    t = Transport()
+    Net.endpoints.append(t)
+    spa._transport = t
+    spa._protocol = GeckoAsyncUdpProtocol(Fut(), ("10.0.0.9", 10022))
+    spa._protocol.connection_made(t)
+    m._spa = spa
+    m.add_task(slow_client(None, None), "Ping loop", "SPA")        # the task this very code runs on
+    m.add_task(slow_client(None, None), "Refresh loop", "SPA")
+    try:
+        await m._handle_event(GeckoSpaEvent.RUNNING_PING_RECEIVED)
+    except asyncio.CancelledError:
+        pass
+    ensures("reset-lands-in-idle-with-nothing-left", both(m._spa_state is GeckoSpaState.IDLE, m._spa is None, m._facade is None))
+    ensures("every-endpoint-of-the-abandoned-connection-is-closed", all_closed())
+    ensures("background-tasks-of-the-connection-are-cancelled", tasks_cancelled("SPA:"))
+    ensures("connection-state-released", both(spa._protocol is None, spa._transport is None))
+
+
+# ------------------------------------------------------ task registry: frame and exit
+class Gathered:
+    tasks = []
+
+
+async def rec_gather(*tasks, **kw):
+    Gathered.tasks = list(tasks)
+    suspension_point("gather")
+    return [None for t in tasks]
+
+
+@harness(prop="C10", target="geckolib.async_tasks:AsyncTasks.cancel_key_tasks", name="cancelled_tasks_are_still_awaited_at_exit")
+async def cancelled_tasks_are_still_awaited_at_exit(a: bool, b: bool, c: bool):
+    arm(-1)
+    asyncio.gather = rec_gather
+    tm = AsyncTasks()
+    keys = ["SPA" if a else "LOC", "SPA" if b else "FACADE", "SPA" if c else "SPAMAN"]
+    for i in range(3):
+        tm.add_task(slow_client(None, None), "task %d" % i, keys[i])
+    before = list(tm._tasks)
+    tm.cancel_key_tasks("SPA")
+    for i in range(3):
+        ensures("exactly-the-keyed-tasks-are-cancelled", before[i].cancelled == (keys[i] == "SPA"))
+    ensures("cancelled-tasks-stay-registered-until-they-have-finished", tm._tasks == before)
+    Gathered.tasks = []
+    await tm.gather()
+    ensures("exit-cancels-every-task", tasks_cancelled(""))
+    ensures("exit-awaits-every-task-including-already-cancelled-ones", Gathered.tasks == before)
